@@ -19,7 +19,10 @@ RULE = ('writer histories as in C10 (new keys, overwrites, read_value initialisa
         'patched small initial sizes, multi-byte and long keys); EVERY cut point: the file is snapshotted after every interposed file '
         'effect (open/create, truncate, each mmap slice assignment) and additionally after every executed source line of mmap_dict.py; '
         'each distinct snapshot is read by read_all_values_from_file, reopened by a new MmapedDict (then written to), and for '
-        'collector cases scraped by MultiProcessCollector with two complete worker files beside it; exhaustive slice: all histories of '
+        'collector cases scraped by MultiProcessCollector with two complete worker files beside it; CONTINUATION: from every cut file with a '
+        'non-zero tail beyond the used bytes (the unpublished entry of a stopped writer) and from some others, a NEW MmapedDict reopens a '
+        'copy and performs further ops - read_value/write_value of keys shorter and longer than the history\'s keys, overwrites, reopen - '
+        'with all read paths observed after every step and compared with the model run on the same file bytes (open_, then steps); exhaustive slice: all histories of '
         'length <= 2 over a 9-op alphabet at a small size; thorough tier: forked writers SIGKILLed at random instants (direct oracle only); '
         'non-trivial = the history has at least 4 distinct cut states; distinct by case')
 TRUSTED = ['a slice assignment to a shared mapping is observed whole by a concurrent read (atomicity at slice granularity is the model\'s '
@@ -29,7 +32,7 @@ TRUSTED = ['a slice assignment to a shared mapping is observed whole by a concur
            'UTF-8 and struct facts as in C10']
 ASSUMPTIONS = ['keys are encodable strings; used bytes < 2^31',
                'the reader is run on a private copy of each cut file (a reader concurrent with further writes sees one of the later cuts)']
-TIME_BUDGET = {'quick': 70, 'thorough': 800}
+TIME_BUDGET = {'quick': 85, 'thorough': 800}
 
 
 # ---------------------------------------------------------------- generators
@@ -38,8 +41,66 @@ def coll_key(name, lab):
     return json.dumps([name, name + '_total', {'l': lab}, 'help ' + name], sort_keys=True)
 
 
+def shorter(ks):
+    if isinstance(ks, str):
+        return ks[:len(ks) // 2]
+    unit, count, suffix = ks
+    return [unit, count // 2, suffix[:1]]
+
+
+def longer(ks, rng):
+    ext = rng.choice(('zz', '\xe9\xe9\xe9', ' ', 'a_longer_suffix_0123456789'))
+    if isinstance(ks, str):
+        return ks + ext
+    unit, count, suffix = ks
+    return [unit, count, suffix + ext]
+
+
+def rand_cont(rng, ops):
+    """what a NEW writer does after reopening the file a dead writer left at some cut: initialise / write keys that are
+    shorter or longer than the keys of the history (the dead writer's unpublished entry lies beyond the used bytes),
+    overwrite old keys, reopen again"""
+    hist = []
+    for op in ops:
+        if op[0] != 'O' and op[1] not in hist:
+            hist.append(op[1])
+    out = []
+    for i in range(rng.randrange(1, 5)):
+        r = rng.random()
+        if i == 0 and r < 0.7:
+            r = rng.random() * 0.5
+        if r < 0.3:
+            k = rng.choice(['', 'b', 'q7', 'new'] + [shorter(h) for h in hist[-3:]])
+            out.append(['R', k] if rng.random() < 0.7 else ['W', k, rand_bits(rng), rand_bits(rng)])
+        elif r < 0.5:
+            k = longer(rng.choice(hist), rng) if hist and rng.random() < 0.7 else rand_key(rng)
+            out.append(['R', k] if rng.random() < 0.6 else ['W', k, rand_bits(rng), rand_bits(rng)])
+        elif r < 0.7 and hist:
+            out.append(['W', rng.choice(hist), rand_bits(rng), rand_bits(rng)])
+        elif r < 0.85 and hist:
+            out.append(['R', rng.choice(hist)])
+        elif r < 0.93:
+            out.append(['O'])
+        else:
+            out.append(['R', rand_key(rng)])
+    return out
+
+
 def cases(ctx):
+    for case in base_cases(ctx):
+        if 'kill_us' not in case and 'cont' not in case:
+            case['cont'] = rand_cont(ctx.rng, case['ops'])
+        yield case
+
+
+def base_cases(ctx):
     rng = ctx.rng
+    # a new writer continuing after a dead one: keys shorter and longer than the key that was in flight
+    for k in ('a_rather_long_metric_key_0123456789', '\u20ac' * 9, 'abcdefgh'):
+        for c in ([['R', 'b']], [['R', '']], [['R', k[:5]], ['R', k + k]], [['W', 'b', 1, 2], ['R', 'c']],
+                  [['R', k], ['O'], ['R', 'b']]):
+            yield {'isz': 65536 if len(c) == 1 else 64, 'ops': [['W', 'first', 0x3ff0000000000000, 5], ['W', k, 0x4000000000000000, 6]],
+                   'cont': c}
     yield {'isz': 65536, 'ops': []}
     yield {'isz': 65536, 'ops': [['W', 'a', 0x3ff0000000000000, 0]]}
     yield {'isz': 65536, 'ops': [['R', 'abcd'], ['W', 'abcd', 0x7ff8000000000001, 0x8000000000000000], ['O'], ['W', 'é', 1, 2]]}
@@ -338,9 +399,94 @@ def impl(case):
                 if not cuts or cuts[-1] != o:
                     cuts.append(o)
                     extras.append(extra)
-            return {'cuts': cuts, 'extras': extras, 'writer_error': err, 'nsnaps': len(rec.snaps)}
+            conts = []
+            for idx in select_cuts(rec.snaps, case):
+                conts.append(continue_from(mod, rec.snaps[idx], tmp, case.get('cont') or []))
+            res = {'cuts': cuts, 'extras': extras, 'writer_error': err, 'nsnaps': len(rec.snaps), 'conts': conts}
+            _LAST[0] = (_case_key(case), [c['file'] for c in conts])
+            return res
     finally:
         shutil.rmtree(tmp, ignore_errors=True)
+
+
+_LAST = [None]       # cut files of the last impl() call, for model(): the model is run on the files found on disk
+
+
+def _case_key(case):
+    import json
+    return json.dumps(case, sort_keys=True)
+
+
+def dirty_tail(raw):
+    """bytes beyond the used-bytes header that are not zero: an unpublished entry of a writer that stopped"""
+    if len(raw) < 8:
+        return False
+    used = struct.unpack_from('<i', raw, 0)[0]
+    return used >= 8 and any(raw[used:used + 4096]) or (used >= 8 and raw[used:].strip(b'\x00') != b'')
+
+
+def select_cuts(snaps, case):
+    """indices of the cut files a new writer continues from: every one with a dirty tail (at most 4, spread), the first
+    states, and one more chosen from the case"""
+    if not case.get('cont'):
+        return []
+    n = len(snaps)
+    if n <= 4:
+        return list(range(n))
+    dirty = [i for i in range(n) if dirty_tail(snaps[i])]
+    if len(dirty) > 4:
+        step = len(dirty) / 4.0
+        dirty = [dirty[int(j * step)] for j in range(4)]
+    extra = (len(case['ops']) * 7 + len(case['cont']) * 3 + n) % n
+    sel = sorted(set(dirty + [extra]))
+    if len(snaps[-1]) > 200000:
+        sel = sel[:2]
+    return sel
+
+
+def continue_from(mod, raw, tmp, cont):
+    """a new MmapedDict on a private copy of the cut file, then the continuation ops; observations as in C10"""
+    cdir = os.path.join(tmp, 'cont')
+    shutil.rmtree(cdir, ignore_errors=True)
+    os.mkdir(cdir)
+    p = os.path.join(cdir, 'counter_100.db')
+    with open(p, 'wb') as f:
+        f.write(raw)
+    prefix = raw.rstrip(b'\x00')
+    out = {'file': [prefix.hex(), len(raw)],
+           'before': attempt(lambda: canon_entries(mod.MmapedDict.read_all_values_from_file(p)))}
+    steps = []
+    d = None
+    try:
+        try:
+            d = mod.MmapedDict(p)
+        except Exception as e:
+            out['steps'] = [['err', exc_kind(e)]]
+            return out
+        steps.append(c10.observe(mod, p, d, None))
+        for op in cont:
+            peek = None
+            try:
+                if op[0] == 'W':
+                    d.write_value(key_str(op[1]), frombits(op[2]), frombits(op[3]))
+                elif op[0] == 'R':
+                    v, ts = d.read_value(key_str(op[1]))
+                    peek = ['ok', [bits(v), bits(ts)]]
+                else:
+                    d.close()
+                    d = mod.MmapedDict(p)
+            except Exception as e:
+                steps.append(['err', exc_kind(e)])
+                break
+            steps.append(c10.observe(mod, p, d, peek))
+    finally:
+        try:
+            if d is not None:
+                d.close()
+        except Exception:
+            pass
+    out['steps'] = steps
+    return out
 
 
 # ---------------------------------------------------------------- model side
@@ -364,13 +510,23 @@ def model(m, case):
             o = [reader, reopen]
         if not cuts or cuts[-1] != o:
             cuts.append(o)
-    return {'cuts': cuts}
+    # continuation: the model's open_ on the very cut files found on disk, then its steps
+    conts = []
+    if case.get('cont'):
+        if not _LAST[0] or _LAST[0][0] != _case_key(case):
+            impl(case)
+        for fhex, total in _LAST[0][1]:
+            r = m.call('c11_cont', case['isz'], mmap.PAGESIZE, c10.BLOB_LIMIT, (bytes.fromhex(fhex), total),
+                       sx_ops(case['cont']))
+            conts.append([c10.d_step(st) for st in r])
+    return {'cuts': cuts, 'conts': conts}
 
 
 def same(i, mo):
     if mo is None:
         return True
-    return i['cuts'] == mo['cuts'] and not i.get('writer_error')
+    return (i['cuts'] == mo['cuts'] and not i.get('writer_error')
+            and [c['steps'] for c in i.get('conts', [])] == mo.get('conts', []))
 
 
 # ---------------------------------------------------------------- direct oracle
@@ -433,12 +589,59 @@ def direct(case, obs):
             if extra.get('collect_clean') != extra['collect']:
                 return '%s: collect() over the cut file %r differs from collect() over the equivalent complete file %r' % (
                     what, extra['collect'], extra.get('collect_clean'))
+    for ci, c in enumerate(obs.get('conts', [])):
+        r = direct_cont(case, c, allowed)
+        if r:
+            return 'continuation %d of %d (cut file of %d bytes, %d non-zero-terminated): %s' % (
+                ci + 1, len(obs['conts']), c['file'][1], len(c['file'][0]) // 2, r)
     if not obs.get('kill'):
         if not obs['cuts']:
             return 'no file state was observed'
         last = obs['cuts'][-1][0]
         if last != ['ok', allowed[-1][2]]:
             return 'the final file reads %r, expected the complete state %r' % (last, allowed[-1][2][:8])
+    return None
+
+
+def direct_cont(case, c, allowed):
+    """a new writer reopened a cut file and went on: every read path must return the cut's prefix state updated by exactly
+    the new writer's operations - in particular a key it initialises reads (0.0, 0.0), never stale bytes"""
+    before = c['before']
+    if before[0] != 'ok':
+        return 'the cut file is unreadable: %s' % before[1]
+    if all(a[2] != before[1] for a in allowed):
+        return 'the cut file reads %r, no prefix state' % (before[1][:6],)
+    cur = [list(e) for e in before[1]]
+    steps = c['steps']
+    cont = case['cont']
+    for i, s in enumerate(steps):
+        what = 'after reopen' if i == 0 else 'after reopen + %d op(s), last %r' % (i, c10._short(cont[i - 1]))
+        if s[0] == 'err':
+            return '%s: raised %s' % (what, s[1])
+        if i > 0:
+            op = cont[i - 1]
+            if op[0] != 'O':
+                k = blob(key_str(op[1]).encode('utf-8'), KEY_LIMIT)
+                hit = [e for e in cur if e[0] == k]
+                if op[0] == 'W':
+                    if hit:
+                        hit[0][1], hit[0][2] = op[2], op[3]
+                    else:
+                        cur.append([k, op[2], op[3]])
+                elif not hit:
+                    cur.append([k, 0, 0])
+                if op[0] == 'R':
+                    want = [[e[1], e[2]] for e in cur if e[0] == k][0]
+                    if s[5] != ['ok', want]:
+                        return '%s: read_value returned %r, expected %r (a value nobody wrote)' % (what, s[5], want)
+        if s[0] is not True:
+            return '%s: used-bytes header %d exceeds the file length' % (what, s[1])
+        if s[3] != ['ok', cur]:
+            return '%s: read_all_values(): %s' % (what, c10._diff(s[3][1] if s[3][0] == 'ok' else s[3], cur))
+        if s[4] != ['ok', cur]:
+            return '%s: read_all_values_from_file(): %s' % (what, c10._diff(s[4][1] if s[4][0] == 'ok' else s[4], cur))
+    if len(steps) != len(cont) + 1:
+        return 'the continuation stopped early'
     return None
 
 
@@ -450,6 +653,10 @@ def classify(case, obs):
     out = ['cuts=%d' % min(len(obs['cuts']), 40) if len(obs['cuts']) < 10 else 'cuts>=10']
     if case.get('coll'):
         out.append('collector')
+    for c in obs.get('conts', []):
+        out.append('continuation')
+        if dirty_tail(bytes.fromhex(c['file'][0]) + b'\x00' * (c['file'][1] - len(c['file'][0]) // 2)):
+            out.append('continuation-from-dirty-tail')
     if 'kill_us' in case:
         out.append('sigkill')
         if obs['cuts']:
@@ -465,12 +672,21 @@ def classify(case, obs):
     return out
 
 
+def _keep(case, c):
+    if case.get('coll'):
+        c['coll'] = True
+    if case.get('cont'):
+        c['cont'] = case['cont']
+    return c
+
+
 def neighbours(case):
-    return [dict(c, **({'coll': True} if case.get('coll') else {})) for c in c10.neighbours(case)]
+    return [_keep(case, c) for c in c10.neighbours(case)]
 
 
 def shrinks(case):
     for c in c10.shrinks(case):
-        if case.get('coll'):
-            c['coll'] = True
-        yield c
+        yield _keep(case, c)
+    cont = case.get('cont') or []
+    for i in range(len(cont)):
+        yield dict(case, cont=cont[:i] + cont[i + 1:])
